@@ -38,12 +38,23 @@ def log(*a):
     print(*a, file=sys.stderr, flush=True)
 
 
+def _big_stack():
+    # coqc parses / evaluates generated terms of hundreds of kilobytes recursively: lift the stack limit as far as allowed
+    import resource
+    try:
+        soft, hard = resource.getrlimit(resource.RLIMIT_STACK)
+        resource.setrlimit(resource.RLIMIT_STACK, (hard, hard))
+    except (ValueError, OSError):
+        pass
+
+
 def run(cmd, timeout=1800, cwd=None, env=None, input=None):
     """run a command, return (rc, stdout+stderr text)"""
     try:
         p = subprocess.run(cmd, cwd=cwd, env=env, input=input, stdout=subprocess.PIPE,
                            stderr=subprocess.STDOUT, timeout=timeout,
-                           text=isinstance(input, str) or input is None)
+                           text=isinstance(input, str) or input is None,
+                           preexec_fn=_big_stack if cmd and cmd[0] in ("coqc", "make") else None)
         out = p.stdout if isinstance(p.stdout, str) else p.stdout.decode("utf-8", "replace")
         return p.returncode, out
     except subprocess.TimeoutExpired as e:
